@@ -65,6 +65,7 @@ func runC18(c *Ctx) {
 		}
 	}
 	c.Floor("pings-locked", 3)
+	checkKeepAliveRecordedOnOwnConnection(c, scope)
 
 	// consume: after a hit every path deletes the same id before leaving the critical section
 	for _, g := range getCalls {
